@@ -10,15 +10,16 @@ ID = "C10"
 LEVEL = "proof"
 DESIGN_REF = "DESIGN.md §9 C10, §12.C10"
 COQ_TARGETS = ["Properties/C10", "Pins/C10", "Storage/RunValid", "Storage/RunBuild"]
-THEOREMS = [("PdfV.Properties.C10", n) for n in ["C10_offsets", "C10_xref_consistent", "C10_startxref"]]
+THEOREMS = [("PdfV.Properties.C10", n) for n in ["C10_offsets", "C10_xref_consistent", "C10_startxref", "C10_valid_struct", "C10_reload", "C10_build_state"]]
 ANCHORS = ["file.rs", "xref.rs"]
 MODES = ["accepts", "build_bytes"]
 TRUSTED_BASE = ["coqc 8.16.1 kernel (vm_compute for examples and table lemmas)",
                 "gen/extract_storage.py (literals of save / write_stream / byte_len)",
                 "Extraction + ExtrOcamlBasic, ocamlfind ocamlopt 4.13.1, coq/driver/main.ml (the extracted valid_code is run on the implementation's bytes)",
                 "harness pdfh (modes build, accepts), tools/vplib, tools/oracle/validate.py (python twin of Storage/Valid.v), tools/oracle/canon.py"]
-ASSUMPTIONS = ["the theorems are about Storage::save on every well-formed state; PdfBuilder/CatalogBuilder are modelled only as the example program Properties/C10.v: build_one_page (the builder itself is tied by the `build` correspondence against the specification, not by a Gallina model)",
-               "valid_pdf of the produced bytes is evaluated (extracted Coq validator + python twin) on every generated document, not proved universally (C10_full_statement is stated, not proved)"]
+ASSUMPTIONS = ["PdfBuilder/CatalogBuilder are the Gallina program Storage/Builder.v: build for arbitrary page lists (operations as the already serialised content stream: serialize_ops is C08's; default Resources; no metadata/lgi/vp); mode build_bytes compares its bytes with the real builder's byte for byte",
+               "C10_reload: the values the caller supplies are in C04's storable domain (page_ok, info_ok); `reloaded` = a state over the built bytes whose table is the saved table (what load produces: C09_load_table)",
+               "C10_valid_struct is the structural statement valid_struct (Prop, on the bytes and the table the xref stream encodes); the *executable* validator valid_code (own tokeniser over every object body, reference and /Length checks) is evaluated (extracted Coq + python twin) on every generated document, not proved universally (C10_full_statement is stated, not proved)"]
 LEVEL_NOTE = ("proved: offsets of saved objects point at their headers, /W /Index /Length of the xref stream are consistent and decode to the table, "
               "startxref announces the xref stream object (all for every well-formed state); evaluated on every case: the complete structural validator "
               "(Coq, extracted) and its python twin on the real bytes, and the reload view against the builder's input")
